@@ -1156,6 +1156,7 @@ func (run *simRun) cleanup() {
 	}{}
 	simunix.ReleaseAll()
 	_ = os.RemoveAll(run.baseDir)
+	_ = os.Remove(filepath.Dir(run.baseDir)) // the per-process directory, once it is empty
 }
 
 func sortedU64(m map[uint64]bool) []uint64 {
